@@ -298,14 +298,37 @@ func parseLiteral(token lex.Token) (e any, err error) {
 	}
 
 	// if it contains unescaped wildcards then it is a wildcard string
-	if strings.ContainsAny(token.Val, "*?") {
+	unescaped, hasWildcard := unescape(token.Val)
+	if hasWildcard {
 		return expr.WILD(token.Val), nil
 	}
 
-	// if it contains an escape string then strip it out now
-	if strings.Contains(token.Val, `\`) {
-		return expr.Lit(strings.ReplaceAll(token.Val, `\`, "")), nil
+	// otherwise it is a plain string with its escape characters stripped out
+	return expr.Lit(unescaped), nil
+}
+
+// unescape removes one level of backslash escaping from a word and reports whether the word
+// contains a wildcard character that was not escaped.
+func unescape(in string) (out string, hasWildcard bool) {
+	if !strings.ContainsAny(in, `\*?`) {
+		return in, false
 	}
 
-	return expr.Lit(token.Val), nil
+	var sb strings.Builder
+	escaped := false
+	for _, r := range in {
+		switch {
+		case escaped:
+			sb.WriteRune(r)
+			escaped = false
+		case r == '\\':
+			escaped = true
+		default:
+			if r == '*' || r == '?' {
+				hasWildcard = true
+			}
+			sb.WriteRune(r)
+		}
+	}
+	return sb.String(), hasWildcard
 }
